@@ -90,7 +90,7 @@ def check_shape(t, shape, style_names=None, iter_names=None, text=True):
 
     m = tree.Model.from_shape(shape)
     sty = styles()
-    kindcycle = ("user", "light", "node", "weird")
+    kindcycle = ("user", "light", "node", "weird", "tuplenode", "tuple0")
     for start in range(m.n):
         kind = kindcycle[start % len(kindcycle)]
         nodes = tree.build(m, tree.default_factory(kind), "topdown")
